@@ -167,6 +167,9 @@ def groupMean {κ : Type} [DecidableEq κ] (nq : Nat) (key : Nat → κ) (x : Na
   (sumRange nq fun m => if key m = key n then x m else 0)
     / ((sumRange nq fun m => if key m = key n then 1 else 0 : Nat) : α)
 
+/-- vector.py L251-257: `spectra = 0; for n: spectra += ave_sqresults; spectra /= nsnapshots` -/
+def frameMean (T : Nat) (x : Nat → α) : α := (sumRange T fun t => x t) / ((T : Nat) : α)
+
 end Fourier
 
 /-! ### per-wave-vector time correlation (`time_correlation`, two-index branch) -/
